@@ -108,7 +108,7 @@ def run(sc, tier, seed):
             for fp in sorted(meta["trace_files"]):
                 f.write(open(fp).read())
         corrupted_field_selftest(sc, merged)
-        val = validate(sc, [merged], 12)
+        val = validate(sc, [merged], 4 if tier == "quick" else 8)   # JVM start-up (~5 CPU s) dominates small parts
         for fu in futs:
             R.add_model(fu.result())
         res = fbug.result()
